@@ -33,6 +33,9 @@ type tbl struct {
 	// setup, when set, runs in the run's own interpreter before the subject (registration through the subject's own
 	// methods): the choices it makes are enumerated with those of the run
 	setup func(ip *absint.Interp)
+	// addrs: the addresses handed out by (reflect.Value).Pointer so far (see there)
+	addrs  map[*absint.Tok]int64
+	naddrs int
 }
 
 type syncMapModel struct {
@@ -71,6 +74,7 @@ func newTbl(c *core.Ctx) *tbl {
 		ext:     map[string]func(*absint.Interp, []absint.Value) absint.Value{},
 		invoke:  map[*types.Func]func(*absint.Interp, []absint.Value) absint.Value{},
 		invokeN: map[string]func(*absint.Interp, []absint.Value) absint.Value{}}
+	stringModels(t) // the standard string functions on literal texts (a table may override any of them)
 	// reflectx.Id renders a value's type for log and error texts only
 	if idFn := c.Func("util/reflectx", "Id"); idFn != nil {
 		t.callee[idFn] = func(ip *absint.Interp, a []absint.Value) absint.Value { return &absint.Opaque{Why: "text"} }
@@ -215,6 +219,38 @@ func (t *tbl) Call(ip *absint.Interp, site ssa.CallInstruction, args []absint.Va
 		return t.newErr(cal.Name()), true
 	case strings.HasPrefix(full, "(*sync.WaitGroup).") || strings.HasPrefix(full, "(*sync.Mutex).") || strings.HasPrefix(full, "(*sync.RWMutex)."):
 		return nil, true // synchronisation has no effect on a sequential schedule
+	case full == "(reflect.Value).IsZero" && len(args) == 1:
+		// whether a field already holds something when the container gets to it is up to the user: both are explored
+		if tok, ok := args[0].(*absint.Tok); ok {
+			if z, known := tok.Attr["zero"].(absint.Bool); known {
+				return z, true
+			}
+			z := absint.Bool(ip.Choose(2, "the value is the zero value") == 0)
+			tok.Attr["zero"] = z // one answer per value and run
+			return z, true
+		}
+		return nil, false
+	case full == "(reflect.Value).Pointer" && len(args) == 1:
+		// an address: the same for one object every time; two different objects usually have different addresses,
+		// but need not (all zero-size values may share one): each new object's address is explored as a fresh one
+		// and as every address handed out before
+		tok, ok := args[0].(*absint.Tok)
+		if !ok {
+			return nil, false
+		}
+		if t.addrs == nil {
+			t.addrs = map[*absint.Tok]int64{}
+		}
+		if a, known := t.addrs[tok]; known {
+			return absint.Int(a), true
+		}
+		pick := ip.Choose(t.naddrs+1, "address of "+tok.ID+" (fresh, or one handed out before)")
+		a := int64(0x1000 + pick)
+		if pick == t.naddrs {
+			t.naddrs++
+		}
+		t.addrs[tok] = a
+		return absint.Int(a), true
 	case full == "reflect.DeepEqual" && len(args) == 2:
 		// one object equals itself; two different objects may or may not have equal contents
 		if a, ok := args[0].(*absint.Tok); ok && args[1] == absint.Value(a) {
